@@ -9,16 +9,24 @@
 //	     tunnelled CONNECT is sent to that proxy, which answers it and carries the tunnel;
 //	     plain http requests are forwarded to it by a real http.Transport
 //
-//	req = <mode><reqmod><rt><resmod><close>
+//	req = <mode><reqmod><rt><resmod><close>[<errtext>]
 //	  mode   g plain request | b CONNECT on a proxy without MITM (blind tunnel) | m CONNECT on a MITM proxy
 //	  reqmod independent flags of ONE call (it always mutates the request):
 //	         P none | E return error | S skip round trip | H hijack the session
 //	         A hijack+error | B skip+error | C skip+hijack | D skip+hijack+error
 //	  rt     O upstream answers 203 with res.Request = the request it was given / dial succeeds
 //	         C answers with res.Request = a clone of it | N answers with res.Request = nil
-//	         F round trip / dial fails
+//	         R a REAL http.Transport forwards the request to a real origin, which answers 203
+//	         F round trip / dial fails with a custom error | E with a bare io.EOF | T with a net
+//	         timeout error | U with io.ErrUnexpectedEOF | X with context.DeadlineExceeded
+//	         Q real transport, the real origin reads the request and closes without answering
+//	         S real transport with a short ResponseHeaderTimeout, the real origin never answers
+//	         (R/Q/S fall back to O/E/T where the request cannot go to the cleartext origin:
+//	         https inside a MITM tunnel, or a downstream proxy is configured)
 //	  resmod P none | E return error | H hijack the session | A hijack+error
 //	  close  k keep-alive | c request carries "Connection: close"
+//	  errtext (optional digit) text of the modifiers' errors: 0 plain | 1 quotes and backslashes |
+//	         2 a *martian.MultiError of two errors (joined by a newline) | 3 control bytes | 4 5000 bytes
 //
 // OUT tokens (request r = position of the request token in the case, all
 // connections counted; c / s = context / session ID renamed to
@@ -27,7 +35,9 @@
 //
 //	K                         next connection
 //	Q.r.c.s.L                 request modifier called on request r
-//	U.r.same.warn.m           round tripper called: same request object as Q?, Warning values, X-Req-Mod values
+//	(warn = number of Warning values of the form  199 "martian" quoted-string quoted-string  without
+//	 control characters, plus 100 for every value not of that form)
+//	U.r.same.warn.m           round tripper called (for R/Q/S: logged by the real origin when the request arrives): same request object as Q?, Warning values, X-Req-Mod values
 //	D.r                       dial (CONNECT without MITM) during exchange r
 //	S.r.same.c.s.status.warn.L  response modifier called; r from res.Request, same = res.Request is the object seen by Q
 //	W.r.status.warn.close.m   the client received this response to request r (m = X-Res-Mod values)
@@ -39,6 +49,7 @@ package main
 
 import (
 	"bufio"
+	"context"
 	"crypto/tls"
 	"errors"
 	"fmt"
@@ -47,10 +58,12 @@ import (
 	"net/http"
 	"net/url"
 	"os"
+	"regexp"
 	"sort"
 	"strconv"
 	"strings"
 	"sync"
+	"sync/atomic"
 	"time"
 
 	martian "github.com/google/martian/v3"
@@ -65,11 +78,16 @@ type reqTok struct {
 	rt         byte
 	sh, se     bool
 	cl         byte
+	et         byte // error text kind '0'..'4'
 }
 
 func parseTok(t string) (reqTok, bool) {
+	et := byte('0')
+	if len(t) == 6 && t[5] >= '0' && t[5] <= '4' {
+		et, t = t[5], t[:5]
+	}
 	if len(t) != 5 || !strings.ContainsRune("gbm", rune(t[0])) || !strings.ContainsRune("PESHABCD", rune(t[1])) ||
-		!strings.ContainsRune("OFCN", rune(t[2])) || !strings.ContainsRune("PEHA", rune(t[3])) || !strings.ContainsRune("kc", rune(t[4])) {
+		!strings.ContainsRune("OFCNRETUXQS", rune(t[2])) || !strings.ContainsRune("PEHA", rune(t[3])) || !strings.ContainsRune("kc", rune(t[4])) {
 		return reqTok{}, false
 	}
 	q, s := t[1], t[3]
@@ -79,7 +97,115 @@ func parseTok(t string) (reqTok, bool) {
 		rt: t[2],
 		sh: s == 'H' || s == 'A', se: s == 'E' || s == 'A',
 		cl: t[4],
+		et: et,
 	}, true
+}
+
+// scriptedErr builds the error a scripted modifier returns.
+func scriptedErr(side string, kind byte) error {
+	switch kind {
+	case '1':
+		return errors.New(side + ` said "no" \ and 'left' \"`)
+	case '2':
+		me := martian.NewMultiError()
+		me.Add(errors.New(side + ": first problem"))
+		me.Add(errors.New(side + ": second problem"))
+		return me
+	case '3':
+		return errors.New(side + " ctl\x01\x7f\ttab\r\nX-Injected: 1")
+	case '4':
+		return errors.New(side + " " + strings.Repeat("x", 5000))
+	}
+	return errors.New(side + "-error")
+}
+
+var warnRE = regexp.MustCompile(`^199 "martian" "(?:[^"\\]|\\.)*" "(?:[^"\\]|\\.)*"$`)
+
+// warnCount = well-formed Warning values + 100 per malformed one.
+func warnCount(h http.Header) int {
+	n := 0
+	for _, v := range h.Values("Warning") {
+		ok := warnRE.MatchString(v)
+		for i := 0; i < len(v) && ok; i++ {
+			if v[i] < 0x20 || v[i] == 0x7f {
+				ok = false
+			}
+		}
+		if ok {
+			n++
+		} else {
+			n += 100
+		}
+	}
+	return n
+}
+
+// timeoutErr is a net.Error that reports a timeout.
+type timeoutErr struct{}
+
+func (timeoutErr) Error() string   { return "scripted i/o timeout" }
+func (timeoutErr) Timeout() bool   { return true }
+func (timeoutErr) Temporary() bool { return true }
+
+// real cleartext origin (one per process) behind a real http.Transport.  It
+// logs the arrival of a request as the U event of the current case.
+var (
+	realOnce  sync.Once
+	realAddr  string
+	realTr    *http.Transport // no timeouts: a loaded machine must not turn an answer into a 502
+	realTrTmo *http.Transport // short ResponseHeaderTimeout, used only with the origin that never answers
+	curEnv    atomic.Value    // *env of the running case
+)
+
+func realOrigin() {
+	realOnce.Do(func() {
+		l, err := net.Listen("tcp", "127.0.0.1:0")
+		if err != nil {
+			panic(err)
+		}
+		realAddr = l.Addr().String()
+		go http.Serve(l, http.HandlerFunc(func(w http.ResponseWriter, r *http.Request) {
+			if e, _ := curEnv.Load().(*env); e != nil {
+				k := tokOf(r.Header)
+				e.mu.Lock()
+				same := e.sameOf[k]
+				e.mu.Unlock()
+				e.rec.Add(fmt.Sprintf("U.%d.%d.%d.%d", k, same, warnCount(r.Header), len(r.Header.Values("X-Req-Mod"))))
+			}
+			switch r.Header.Get("X-Origin-Mode") {
+			case "close":
+				if hj, ok := w.(http.Hijacker); ok {
+					if c, _, err := hj.Hijack(); err == nil {
+						c.Close()
+					}
+				}
+				return
+			case "hang":
+				select {
+				case <-r.Context().Done():
+				case <-time.After(3 * time.Second):
+				}
+				if hj, ok := w.(http.Hijacker); ok {
+					if c, _, err := hj.Hijack(); err == nil {
+						c.Close()
+					}
+				}
+				return
+			}
+			w.Header().Set("Content-Type", "text/plain")
+			w.Header().Set("Content-Length", "2")
+			w.WriteHeader(203)
+			io.WriteString(w, "ok")
+		}))
+		dial := func(network, addr string) (net.Conn, error) {
+			return net.DialTimeout("tcp", realAddr, 5*time.Second)
+		}
+		// no connection reuse: a reused connection that the origin closes makes
+		// the transport retry, i.e. contact the origin twice
+		realTr = &http.Transport{Dial: dial, DisableCompression: true, MaxIdleConnsPerHost: -1}
+		realTrTmo = &http.Transport{Dial: dial, DisableCompression: true, MaxIdleConnsPerHost: -1,
+			ResponseHeaderTimeout: 250 * time.Millisecond}
+	})
 }
 
 type env struct {
@@ -88,6 +214,7 @@ type env struct {
 	script   map[int]reqTok
 	retained map[int]*http.Request
 	ctxOf    map[int]*martian.Context
+	sameOf   map[int]int // request r reached the round tripper as the object the request modifier saw
 	lastQ    int
 	tunAddr  string
 	via      bool // downstream proxy configured
@@ -230,7 +357,7 @@ func (e *env) ModifyRequest(req *http.Request) (err error) {
 		e.hijack(ctx, r)
 	}
 	if beh.qe {
-		return errors.New("reqmod-error")
+		return scriptedErr("reqmod", beh.et)
 	}
 	return nil
 }
@@ -261,7 +388,7 @@ func (e *env) ModifyResponse(res *http.Response) (err error) {
 	beh, ok := e.script[r]
 	e.mu.Unlock()
 	c, s := e.ctxFields(ctx)
-	e.rec.Add(fmt.Sprintf("S.%d.%d.%s.%s.%d.%d.%s", r, same, c, s, res.StatusCode, len(res.Header.Values("Warning")), e.linked()))
+	e.rec.Add(fmt.Sprintf("S.%d.%d.%s.%s.%d.%d.%s", r, same, c, s, res.StatusCode, warnCount(res.Header), e.linked()))
 	res.Header.Add("X-Res-Mod", "1")
 	if !ok {
 		return nil
@@ -270,7 +397,7 @@ func (e *env) ModifyResponse(res *http.Response) (err error) {
 		e.hijack(ctx, r)
 	}
 	if beh.se {
-		return errors.New("resmod-error")
+		return scriptedErr("resmod", beh.et)
 	}
 	return nil
 }
@@ -284,10 +411,32 @@ func (e *env) RoundTrip(req *http.Request) (*http.Response, error) {
 		same = 1
 	}
 	beh := e.script[r]
+	e.sameOf[r] = same
 	e.mu.Unlock()
-	e.rec.Add(fmt.Sprintf("U.%d.%d.%d.%d", r, same, len(req.Header.Values("Warning")), len(req.Header.Values("X-Req-Mod"))))
-	if beh.rt == 'F' {
+	rt := beh.rt
+	if real := rt == 'R' || rt == 'Q' || rt == 'S'; real {
+		if !e.via && req.URL != nil && req.URL.Scheme == "http" {
+			// the real origin logs U when (and if) the request arrives
+			tr := realTr
+			if rt == 'S' {
+				tr = realTrTmo
+			}
+			return tr.RoundTrip(req)
+		}
+		rt = map[byte]byte{'R': 'O', 'Q': 'E', 'S': 'T'}[rt]
+	}
+	e.rec.Add(fmt.Sprintf("U.%d.%d.%d.%d", r, same, warnCount(req.Header), len(req.Header.Values("X-Req-Mod"))))
+	switch rt {
+	case 'F':
 		return nil, errors.New("upstream-failure")
+	case 'E':
+		return nil, io.EOF
+	case 'T':
+		return nil, timeoutErr{}
+	case 'U':
+		return nil, io.ErrUnexpectedEOF
+	case 'X':
+		return nil, context.DeadlineExceeded
 	}
 	// what a wrapping RoundTripper may legitimately leave in res.Request: the
 	// request it was given, the copy it forwarded, or nothing
@@ -326,8 +475,17 @@ func (e *env) dial(network, addr string) (net.Conn, error) {
 	beh := e.script[r]
 	e.mu.Unlock()
 	e.rec.Add("D." + strconv.Itoa(r))
-	if beh.rt == 'F' {
+	switch beh.rt {
+	case 'F':
 		return nil, errors.New("dial-failure")
+	case 'E', 'Q':
+		return nil, io.EOF
+	case 'T', 'S':
+		return nil, timeoutErr{}
+	case 'U':
+		return nil, io.ErrUnexpectedEOF
+	case 'X':
+		return nil, context.DeadlineExceeded
 	}
 	target := e.tunAddr
 	if e.via {
@@ -413,6 +571,12 @@ func (e *env) playConn(addr string, toks []reqTok, base int, roots *tls.Config) 
 			fmt.Fprintf(&sb, "GET http://origin.test/r%d HTTP/1.1\r\nHost: origin.test\r\n", r)
 		}
 		fmt.Fprintf(&sb, "X-Tok: %d\r\n", r)
+		switch t.rt {
+		case 'Q':
+			sb.WriteString("X-Origin-Mode: close\r\n")
+		case 'S':
+			sb.WriteString("X-Origin-Mode: hang\r\n")
+		}
 		if t.cl == 'c' {
 			sb.WriteString("Connection: close\r\n")
 		}
@@ -476,7 +640,7 @@ func (e *env) playConn(addr string, toks []reqTok, base int, roots *tls.Config) 
 		if res.Close {
 			cl = 1
 		}
-		rec.Add(fmt.Sprintf("W.%d.%d.%d.%d.%d", r, res.StatusCode, len(res.Header.Values("Warning")), cl, len(res.Header.Values("X-Res-Mod"))))
+		rec.Add(fmt.Sprintf("W.%d.%d.%d.%d.%d", r, res.StatusCode, warnCount(res.Header), cl, len(res.Header.Values("X-Res-Mod"))))
 		if method == "CONNECT" && res.StatusCode == 200 {
 			if t.mode == 'm' {
 				cur.SetDeadline(time.Now().Add(respWait))
@@ -550,7 +714,9 @@ func runCase(in []string) (out []string) {
 		return []string{"INVALID"}
 	}
 	rec := p2x.NewRec()
-	e := &env{via: via, rec: rec, script: map[int]reqTok{}, retained: map[int]*http.Request{}, ctxOf: map[int]*martian.Context{}, lastQ: 994}
+	e := &env{via: via, rec: rec, script: map[int]reqTok{}, retained: map[int]*http.Request{}, ctxOf: map[int]*martian.Context{}, sameOf: map[int]int{}, lastQ: 994}
+	realOrigin()
+	curEnv.Store(e)
 	n := 0
 	for _, c := range conns {
 		for _, t := range c {
@@ -646,8 +812,8 @@ func allToks(mode byte, withClose bool) []string {
 
 func randTok(r *hx.RNG, mode byte) string {
 	q := "PPPPESHABCD"[r.Intn(11)]
-	rt := "OOOFCN"[r.Intn(6)]
-	if mode != 'g' && rt != 'F' {
+	rt := "OOORRRFCNETUXQ"[r.Intn(14)]
+	if mode != 'g' && !strings.ContainsRune("FETUX", rune(rt)) {
 		rt = 'O'
 	}
 	s := "PPPPEHA"[r.Intn(7)]
@@ -655,7 +821,11 @@ func randTok(r *hx.RNG, mode byte) string {
 	if mode == 'g' && r.Chance(1, 8) {
 		cl = 'c'
 	}
-	return string([]byte{mode, q, rt, s, cl})
+	t := string([]byte{mode, q, rt, s, cl})
+	if strings.ContainsRune("EABD", rune(q)) || strings.ContainsRune("EA", rune(s)) {
+		t += string(rune('0' + r.Intn(5)))
+	}
+	return t
 }
 
 // randConn builds one connection script for a proxy of the given kind
@@ -687,6 +857,15 @@ func main() {
 	n := 0
 	emit := func(kind string, in []string) {
 		n++
+		// enumerated scripts: give every erroring request one of the five error texts in turn
+		if kind != "rnd" && kind != "etxt" {
+			in = append([]string(nil), in...)
+			for i, t := range in {
+				if len(t) == 5 && (strings.ContainsRune("EABD", rune(t[1])) || strings.ContainsRune("EA", rune(t[3]))) {
+					in[i] = t + string(rune('0'+(n+i)%5))
+				}
+			}
+		}
 		cfg.Emit(hx.Case{Name: fmt.Sprintf("%s%d", kind, n), In: in, Out: runCase(in)})
 		nreq, modes := 0, map[byte]bool{}
 		for _, t := range in {
@@ -735,6 +914,33 @@ func main() {
 	for _, m := range []byte("gb") {
 		for _, t := range allToks(m, m == 'g') {
 			emit("dthen", []string{"D", "K", t, "gPOPk", "gECAk", "K", "gPNPk"})
+		}
+	}
+	//    real transport + real origin (answers / closes without answering / never answers) and
+	//    every kind of round trip error, with every request / response modifier combination
+	for _, rt := range "REUTXQS" {
+		for _, q := range qAll {
+			for _, sb := range sAll {
+				if rt == 'S' && (q != 'P' && q != 'E' || sb != 'P' && sb != 'A') {
+					continue // the never-answering origin costs a timeout per case
+				}
+				emit("real", []string{"K", string([]byte{'g', byte(q), byte(rt), byte(sb), 'k'}), "gPRPk"})
+			}
+		}
+	}
+	//    every error text for request- and response-side errors, scripted and real upstream,
+	//    plain / blind CONNECT / MITM CONNECT / inside the MITM tunnel
+	for k := '0'; k <= '4'; k++ {
+		for _, base := range [][]string{
+			{"gEOEk"}, {"gEREk"}, {"gERPk", "gPRPk"}, {"gBRPk"}, {"gEQEk"}, {"gAOPk"}, {"gPRAk"}, {"gEFEk"},
+			{"bEOEk"}, {"bEFEk", "gERPk"}, {"mEOEk", "gEREk", "gEOEk"},
+		} {
+			in := []string{"K"}
+			for _, t := range base {
+				in = append(in, t+string(k))
+			}
+			emit("etxt", in)
+			emit("etxt", append([]string{"D"}, in...))
 		}
 	}
 	// 2. every behaviour followed by a plain passing request and a second connection
